@@ -28,6 +28,11 @@ def run(rep, prog, tier):
     r4(rep, prog)
     r7(rep, prog)
     r3(rep, prog)
+    # the files of the last published commit are never collected before a newer meta is in place
+    rep.rule("C01-R8", "the last published commit stays protected from GC until a newer meta.json is in place: the updater pins the SegmentMetas of the published IndexMeta (same rule as C10-R10)")
+    from ..report import Retag
+    from .c10 import r10 as pinned_commit
+    pinned_commit(Retag(rep, "C01-R8"), prog)
 
 
 def publish_sites(prog, static):
